@@ -1,5 +1,5 @@
 """C04 - message framing is independent of how the byte stream is split into reads."""
-from ..engine import Spec, assume, check, reached, HarnessError, notrace
+from ..engine import Spec, assume, check, reached, HarnessError, notrace, decode_choice, encode_choice
 from ..runner import Ob
 from ..streamview import Stream, StreamView, StructShim
 
@@ -21,7 +21,7 @@ EXPLANATION = (
     'auth lines and first binary messages in one stream, cut anywhere.')
 BOUNDS = {
     'quick': 'frame: (k messages, n reads) in {(1,1),(1,2),(1,3),(2,2)}; step: k=2; bytes: 2 messages, 2 cuts from '
-             '~12 representative positions; hs: 2 lines + 1 message, 1-2 cuts, boundary bytes over a 5-class alphabet',
+             '~12 representative positions; hs: 2 lines + 2 messages, 1-2 cuts; hsbig: a first message of 100..40000 bytes in the same read as the last handshake line',
     'thorough': 'frame: adds (2,3),(3,2),(3,3 split by endianness); step: k=3; bytes: 3 messages, 2 cuts; hs: 3 lines + 2 messages',
 }
 ASSUMPTIONS = [
@@ -72,6 +72,9 @@ def obligations(tier):
                                   {'variant': variant, 'c1': c1, 'c2': c2, 'v1': v1}, timeout=300,
                                   path_timeout=60, twin=(tier == 'thorough' or c1 == 0), functions=FUNCS,
                                   bounds='serial of the first message (u32) and both flags symbolic; cuts concrete'))
+    for variant in ('client', 'server'):
+        obs.append(Ob('hsbig:%s' % variant, 'hsbig', {'variant': variant}, timeout=600, path_timeout=120, twin=True,
+                      functions=FUNCS, bounds='first message of 6 sizes around the 16 KiB line limit x 5 ways of cutting the stream (symbolic selector)'))
     if tier == 'thorough':
         for pat in range(8):
             ends = [bool((pat >> j) & 1) for j in range(3)]
@@ -189,7 +192,7 @@ def _wit_stream(k, variant):
 
 def build(family, p):
     from txdbus import protocol
-    if family in ('bytes', 'hs'):
+    if family in ('bytes', 'hs', 'hsbig'):
         return _build_bytes(family, p)
     Rec = _mk_proto(protocol)
     k, ends = p['k'], p['ends']
@@ -385,7 +388,7 @@ def _build_bytes(family, p):
             check(shapes.deq(m.body, body), 'body of a delivered message differs')
         check(len(pr._buffer) == 0, 'bytes left in the buffer after complete messages')
 
-    c1 = p['c1']
+    c1 = p.get('c1')
     if family == 'bytes':
         nmsg = p['nmsg']
         cuts = _cut_positions(nmsg)
@@ -409,6 +412,37 @@ def _build_bytes(family, p):
         return Spec(h, params, witnesses=wit)
 
     variant = p['variant']
+    if family == 'hsbig':
+        SIZES = [100, 16300, 16384, 16385, 20000, 40000]
+        prefix = _hs_prefix(variant)
+
+        def h(code):
+            si, ci = decode_choice(code, [len(SIZES), 5])
+            with notrace():
+                run(SIZES[si], ci)
+            reached()
+
+        def run(size, ci):
+            message.DBusMessage._nextSerial = 11
+            m1 = message.MethodCallMessage('/a/b', 'Big', interface='org.a.I', destination='org.b', signature='ay',
+                                           body=[list(range(256)) * (size // 256) + [7] * (size % 256)])
+            m2 = message.SignalMessage('/s', 'Sig', 'a.b')
+            stream = prefix + m1.rawMessage + m2.rawMessage
+            pre = len(prefix)
+            cl = [[], [pre], [pre + 17000], [pre - 2, pre + 16385], [1, pre + 16384]][ci]
+            pr = Disp()
+            auth = StubAuth(HS_LINES[variant][-1])
+            pr._dbusAuth = auth
+            pr._client = True
+            deliver(pr, stream, [c for c in cl if c < len(stream)])
+            check(pr.transport.lost == 0, 'connection dropped although every authentication line is short')
+            check(len(auth.lines) == 2 and pr.authed == 1, 'handshake did not complete once')
+            check(len(pr.msgs) == 2 and pr.msgs[0].serial == 11 and len(pr.msgs[0].body[0]) == size
+                  and pr.msgs[1]._messageType == 4, 'messages following the handshake in the same read were not delivered intact')
+            check(len(pr._buffer) == 0, 'bytes left in the buffer')
+        h.__name__ = 'hsbig'
+        return Spec(h, [('code', int)], witnesses=[(encode_choice([a, b], [len(SIZES), 5]),) for a, b in ((0, 0), (4, 0), (5, 2), (3, 3), (2, 4))])
+
     cuts = _hs_cuts(variant)
     prefix = _hs_prefix(variant)
 
